@@ -614,7 +614,8 @@ HYG_SOURCE_FILES = ["konst_kernel/src/collect_const.rs", "konst_kernel/src/strin
                     "konst_kernel/src/slice/slice_for_konst.rs", "konst_kernel/src/iter/combinator_methods.rs",
                     "konst_kernel/src/iter.rs", "konst/src/string/concatenation.rs"]
 _RUST_KW = set("as break const continue crate else enum extern false fn for if impl in let loop match mod move mut pub ref "
-               "return self Self static struct super trait true type unsafe use where while dyn async await".split())
+               "return self Self static struct super trait true type unsafe use where while dyn async await "
+               "abstract become box do final macro override priv typeof unsized virtual yield try gen union".split())
 
 
 def source_idents():
@@ -686,6 +687,27 @@ def hygiene_cases(tier):
         out.append(c)
 
     names = HYG_ITEMS + HYG_GENERICS + HYG_BINDERS + HYG_OTHER + [n for n in HYG_DISCOVERED if n not in HYG_ITEMS + HYG_GENERICS + HYG_BINDERS + HYG_OTHER]
+    if tier == "thorough":
+        # thorough tier (also the tier every broken obligation / correspondence escalates to): EVERY identifier that
+        # occurs in the macro sources now, as a caller's `usize` constant handed to an adaptor of from_iter! — a name
+        # that an edit turned into a generic parameter or an item of the expansion is among them whether or not it
+        # also occurs elsewhere in those files (added after seeded change C20-r4-1, where the new names `Ret`/`CAP`
+        # were already used a few lines above)
+        used_by_program = set(re.findall(r"\b[A-Za-z_][A-Za-z0-9_]*\b", PRELUDE)) | {
+            "A3", "R", "items", "pieces", "format", "String", "Vec", "from_iter", "take", "copied", "iter", "string",
+            "collect", "usize", "str", "main", "std", "core", "konst", "konst_kernel", "r", "print", "println"}
+        for n in sorted(source_idents()):
+            if n in names or n in used_by_program or n in HYG_MANGLED or n.startswith("__"):
+                continue
+            add("from_iter", "rem", "const", "take", n,
+                f'const {n}: usize = 2; const A3: &[&str] = &["foo", "bar", "baz"];',
+                f"const R: &str = string::from_iter!(A3, take({n}));",
+                "cat.from_iter", " str 666f6f 626172",
+                f'{{ let items: Vec<&str> = A3.iter().copied().take({n}).collect(); format!("cat.from_iter.@FORM@ str{{}}", pieces(&items)) }}',
+                "R", f"&String::from_iter(A3.iter().copied().take({n}))")
+            out[-1].hyg_expect = False      # judged on its own; if it compiles its value is compared as well
+            out[-1].hyg_scope = not (n[:1].islower() or n[:1] == "_")   # a lower-case name may be a binder (E0530)
+            out[-1].no_model = True         # the Lean model's binder lists are not asked about these names
     P = "68656c6c6f"     # "hello"
     for n in names:
         # ---------------- str_concat!($slice)
@@ -1014,7 +1036,7 @@ def generate(ctx):
         nrej += 0 if ok else 1
         verdict = "accept" if ok else "reject"
         allrows.append(("cat.compile " + c.creq, verdict, "accept", c.hyg_scope))
-        if not c.hyg_scope:
+        if not c.hyg_scope and not getattr(c, "no_model", False):
             # outside the property as far as std is concerned, but still tied to the model
             allrows.append(("cat.compile_m " + c.creq, verdict, "?", True))
     ctx["extra"]["c20_programs"] = {"cases": len(cases), "programs": len(groups),
